@@ -79,7 +79,10 @@ func main() {
 		die(err)
 	}
 	overlay := map[string]string{}
-	exports := loadExports(*repo, *modPath, flag.Args())
+	exports := map[string]string{}
+	if flag.NArg() > 0 {
+		exports = loadExports(*repo, *modPath, flag.Args())
+	}
 	fset := token.NewFileSet()
 	imp := importer.ForCompiler(fset, "gc", func(path string) (io.ReadCloser, error) {
 		f, ok := exports[path]
